@@ -112,7 +112,7 @@ def mk_stream(cases):
 
 
 # ---- the expression-level wrapper
-FAMILIES = ["{a}*(x - {b})**2 + {c}", "{a}*(x - {b})**4 + {c}*x", "{a}*x**3 + {b}*x**2 + {c}*x", "{a}*x + {b}"]
+FAMILIES = ["{a}*(x - {b})**2 + {c}", "{a}*(x - {b})**4 + {c}*x", "{a}*x**3 + {b}*x**2 + {c}*x", "{a}*x + {b}", "{c} + x - x"]   # (the last: a cost that does not depend on x)
 
 
 def gen_min_cases(rng, n):
@@ -120,7 +120,7 @@ def gen_min_cases(rng, n):
     out = []
     bound_pool = [[0, 5], [-5, 0], [None, 2], [-1, None], [0, None], [None, 0], [-3, 3], [0.0, 4.0], None]
     for _ in range(n):
-        kind = rng.choice([0, 0, 0, 1, 2])
+        kind = rng.choice([0, 0, 0, 1, 2, 4])
         a = rng.choice([0.5, 1.0, 2.0])
         b = rng.choice([-2.0, -1.0, 1.0, 3.0, 0.5])
         c = rng.choice([-1.0, 0.0, 2.0])
